@@ -14,21 +14,30 @@ COMMON_NOTE = ('Trusted: Coq 8.16.1 kernel (full .vo builds, vm_compute for fini
 
 CLAIMED = {
     'C12': dict(
-        text='Theorems C12_layout_quadratic / C12_lookahead_linear (Proofs/Fuel.v: on the classic algebra the main loop '
-             'of the layout machine ends within M+1 iterations and every look-ahead within M+1, M = total size of the '
-             'pending stack, for every width / ribbon / strategy: a strictly decreasing stack measure, induction on the '
-             'fuel), C02_split_total (the string splitter ends within 6 len + 16 iterations for every positive width), '
-             'C12_graph_total (object graphs: heap size + 1), the printers being structurally recursive Gallina '
-             'functions; C12_commented_dict_refuted (the document of n dicts nested through commented values has >= 2^n '
-             'leaves: the one exponential family, an open finding). Tie to interpreter steps: sys.monitoring LINE events '
-             'inside the package for 16 input families at n, 2n, 4n, 8n x 3 configurations (step budget, doubling '
-             'ratio <= 10), and the hit counts of the three triplestack.pop() statements compared for EQUALITY with '
-             'the model\'s cost semantics (Model/Cost.v) on those values and on random documents.',
-        design='5.8 C12', technique='Coq proofs (termination measures / fuel bounds; exponential lower bound witness family) + exact loop-count correspondence + measured step ratios',
-        note=COMMON_NOTE + ' PARTIAL with respect to "interpreter steps": the theorems bound loop iterations of the '
-             'model; the cost of the CPython built-ins executed once per iteration (list.extend, copy(triplestack) - '
-             'linear in the stack -, re.split, repr) and the polynomial bound for the full algebra (fill, align, the '
-             'string evaluator) and for the printers\' document size are covered by the measured ratios only.'),
+        text='Theorems C12_layout_all / C12_lookahead_all (Proofs/FuelAll.v, FULL algebra incl. fill, annotations, align, '
+             'lazily normalised flat_choice and contextual string documents: with the weight wt - a flat_choice weighs 1 + '
+             'its heavier branch - every iteration of the main loop and of either look-ahead strictly decreases the weight '
+             'M of the pending stack, so the main loop ends within M+1 and every look-ahead within M iterations, for every '
+             'width / ribbon / strategy), C12_normalize_weight (normalisation never increases the weight), '
+             'C12_string_document_weight (the string printer\'s evaluator returns at most 80 len + 100 at every column and '
+             'width), C12_document_linear (Proofs/LinearDocs.v: the document pformat builds for ANY value - commented, '
+             'truncated, subclassed, any depth / max_seq_len >= 0 - weighs at most 1000 x (nodes + characters of strings '
+             'and comments)), C12_pformat_layout_quadratic (hence the layout of pformat\'s document finishes with fuel '
+             '1000 size + 1 for both loops: at most (1000 size + 1)^2 loop iterations); C02_split_total (string splitter: '
+             '6 len + 16 iterations), C12_graph_total (object graphs: heap size + 1), the printers being structurally '
+             'recursive Gallina functions; C12_commented_dict_refuted (the document of n dicts nested through commented '
+             'values has >= 2^n leaves although its weight is linear: the printer is called twice per level - the one '
+             'exponential family, an open finding). Tie to interpreter steps: sys.monitoring LINE events inside the package '
+             'for 42 input families (incl. 26 chains of one container kind x comment / trailing / both x 1 or 2 elements) at '
+             'n, 2n, 4n, 8n x 3 configurations (step budget, doubling ratio <= 10), and the hit counts of the three '
+             'triplestack.pop() statements compared for EQUALITY with the model\'s cost semantics (Model/Cost.v) on those '
+             'values and on random documents.',
+        design='5.8 C12, 9.1', technique='Coq proofs (strictly decreasing stack weight on the full algebra, linear document-weight bound by induction on the value, exponential lower-bound witness family) + exact loop-count correspondence + measured step ratios',
+        note=COMMON_NOTE + ' PARTIAL with respect to "interpreter steps": the theorems bound loop iterations and the '
+             'size of the document of the model; the cost of the CPython built-ins executed once per iteration '
+             '(list.extend, copy(triplestack) - linear in the stack -, re.split, repr) and the number of printer calls '
+             '(linear except for the open finding) are covered by the measured ratios only. sorted_ok: the sorted-key '
+             'order the harness observes is assumed duplicate free.'),
     'C07': dict(
         text='Theorems C07_timedelta_roundtrip (for every normalised delta, unbounded days: the keywords printed - zero '
              'ones dropped, days split into years*365+days - add up with the constructor\'s weights to exactly the '
